@@ -251,7 +251,14 @@ impl<'s, R: de::read::take::Take> DecompressionState<'s, R> {
 				source_reader,
 			} => {
 				let (reader, config) = deserializer_state.into_inner();
-				(source_reader, config, reader.into_inner().into_inner())
+				let decompressed_block = reader.into_inner();
+				if decompressed_block.position() != decompressed_block.get_ref().len() as u64 {
+					return Err(de::DeError::new(
+						"Decompression error: There's decompressed data left in the \
+							block after reading the whole avro block out of it",
+					));
+				}
+				(source_reader, config, decompressed_block.into_inner())
 			}
 		})
 	}
